@@ -68,19 +68,28 @@ def add_twins(rng, u, t, fresh, p):
     return Con("N", t.args[0], t.args[1], t.args[2], t.args[3], ks)
 
 
-def gen_tree(rng, u, max_nodes, max_depth, twins, origins):
+def gen_tree(rng, u, max_nodes, max_depth, twins, origins, cap=None):
+    """a tree of at most [cap] node objects (TreeGen's max_nodes is a soft bound), preferably of at least 4"""
+    cap = cap or max(max_nodes, 4) + 6
     cn = [c.name for c in u.classes]
     best = None
-    for _ in range(6):
+    for _ in range(10):
         tg = TreeGen(rng, u, max_nodes=max_nodes, max_depth=max_depth, share=0, origins=origins)
         t = tg.node(rng.choice(cn))
-        if best is None or tree_size(t) > tree_size(best):
+        n = tree_size(t)
+        if n > cap:
+            if best is None or tree_size(best) > cap and n < tree_size(best):
+                best = t
+            continue
+        if best is None or tree_size(best) > cap or n > tree_size(best):
             best = t
-        if tree_size(best) >= 4:
+        if 4 <= tree_size(best) <= cap:
             break
     t = best
     if twins:
-        t = add_twins(rng, u, t, Fresh(1000), 0.5)
+        t2 = add_twins(rng, u, t, Fresh(1000), 0.5)
+        if tree_size(t2) <= cap:
+            t = t2
     return t
 
 
@@ -109,6 +118,8 @@ def gen_cases(rng, tier):
             big = rng.random() < 0.3
             root = gen_tree(rng, u, max_nodes=(16 if tier == 'quick' else 22) if big else 9, max_depth=rng.choice([2, 3, 4, 5]),
                             twins=rng.random() < 0.5, origins=gen_origin if rng.random() < 0.4 else None)
+            if tree_size(root) > 40:
+                continue
             nodes = list(iter_nodes(root))
             fresh = Fresh(5000)
             foreign = []
@@ -116,7 +127,7 @@ def gen_cases(rng, tier):
             budget = 7 if tier == 'quick' else 10
             for m in modes:
                 if m == "other":
-                    f = recopy(gen_tree(rng, u, 3, 2, False, None), fresh)
+                    f = recopy(gen_tree(rng, u, 3, 2, False, None, cap=7), fresh)
                 elif m == "reissued-root":
                     f = recopy(root, fresh)
                 else:
